@@ -3,14 +3,15 @@
    Model: Model/Reconcile.v (determine, votes_of, tally_up, ascertain, elect, insert, reconciler_at_record) after the
    fixes F4 (ties of the election go to the value that was voted for first, instead of Go's map order) and F5
    (indentation and line ending are read off the record's significant lines only).
-   Definitions used in the statements (winner, keeps_explicit, styles_of, indented) are in Proofs/Style.v.
+   Definitions used in the statements (winner, keeps_explicit, styles_of, indented) are in Proofs/Style.v; new_date,
+   a_elect, f24/fsp/fex, reformat_time in Proofs/CommandsRefine.v.
    Determinism ("repeating the command on the same input yields the same bytes") holds of the model by
    construction — [exec] is a Gallina function of clock, configuration, command and file, and after F4 nothing in it
    depends on an iteration order; the content is C11_election_spec/_unique: WHICH value wins is fixed by the votes.
    The comparison of repeated runs of the real code is the style-election suite.
    Not here: "the result is always accepted by the parser" is C05_exec_ok_valid. *)
 From Klog Require Import Base.Prelude Model.Calendar Model.Values Model.Record Model.Lines Model.Parser
-  Model.Reconcile Proofs.Style.
+  Model.Reconcile Model.Commands Proofs.Values Proofs.Style Proofs.Reconcile Proofs.CommandsRefine.
 Open Scope Z_scope.
 
 (* 1. the election: the winner was voted for; every value voted for EARLIER has strictly fewer votes, every value
@@ -161,3 +162,56 @@ Proof. reflexivity. Qed.
 Example ex_winner : winner bytes_eqb [[32; 32]; [9]; [9]; [32; 32]]%N [32; 32]%N.
 Proof. exists [], [[9]; [9]; [32; 32]]%N. split; [reflexivity|]. split; [intros v []|]. intros v Hv. cbn in Hv.
   destruct Hv as [<-|[<-|[<-|[]]]]; cbn; lia. Qed.
+
+(* 5. generated values follow explicit argument > configuration > the file's style
+      (Proofs/CommandsRefine.v: new_date, dashes_vote, a_elect, reformat_time; Proofs/Reconcile.v: end_text_of) *)
+
+(* the directive: an explicit --date / --time is written as given; otherwise the configured preference; otherwise the style *)
+Theorem C11_format_directives : forall cfg ds a,
+  date_format cfg ds = match ds with
+                       | DExplicit _ => NoReformat
+                       | _ => match cfg_dashes cfg with Some x => ReformatExplicitly x | None => ReformatAuto end
+                       end /\
+  time_format cfg a = match a_time a with
+                      | Some _ => NoReformat
+                      | None => match cfg_24h cfg with Some x => ReformatExplicitly x | None => ReformatAuto end
+                      end /\
+  (forall A (v auto : A), apply_reformat NoReformat auto = None /\ apply_reformat (ReformatExplicitly v) auto = Some v /\
+                          apply_reformat ReformatAuto auto = Some auto).
+Proof. intros. split; [reflexivity|]. split; [reflexivity|]. intros. repeat split. Qed.
+Print Assumptions C11_format_directives.
+
+(* the date of a new record is printed with the separator the directive yields; the automatic one is the separator
+   most records use (ties: the first record's; `-` for a file without records) *)
+Theorem C11_new_record_date : forall d fmt st,
+  match apply_reformat fmt (sp_val (st_dashes st)) with
+  | None => print_date d
+  | Some f => print_date {| dt := dt d; dt_dashes := f |}
+  end = print_date (new_date d fmt st).
+Proof. exact print_new_date. Qed.
+Print Assumptions C11_new_record_date.
+
+Theorem C11_date_separator_vote : forall rs bs, length rs = length bs ->
+  sp_val (st_dashes (elect default_style rs bs)) = tally_up Bool.eqb (map (fun r => dt_dashes (rec_date r)) rs) true.
+Proof. exact elect_default_dashes. Qed.
+Print Assumptions C11_date_separator_vote.
+
+(* clock convention, dash spacing and placeholder length: what the LAST range / open range of the target record shows,
+   else the election over all records' facts, else 24-hour clock, spaces around the dash, one `?` *)
+Theorem C11_value_style : forall base rs bs, length rs = length bs ->
+  sp_val (st_24h (elect base rs bs)) = a_elect Bool.eqb f24 (st_24h base) rs /\
+  sp_val (st_spaces (elect base rs bs)) = a_elect Bool.eqb fsp (st_spaces base) rs /\
+  sp_val (st_extra (elect base rs bs)) = a_elect Nat.eqb fex (st_extra base) rs.
+Proof. exact elect_values_abstract. Qed.
+Print Assumptions C11_value_style.
+
+(* `start` writes the open range in that style: the time re-spelled per the directive, the style's dash spacing and
+   placeholder length *)
+Theorem C11_start_writes_style : forall rc t fmt summary, find_open_index (rc_record rc) = -1 -> valid_time t ->
+  start_open_range rc t fmt summary =
+  lift_lines rc (insert (rc_style rc) (rc_last rc)
+    (to_multiline (print_open_range {| o_start := reformat_time t fmt (time_format_of (rc_style rc));
+                                       o_spaces := sp_val (st_spaces (rc_style rc));
+                                       o_extra := sp_val (st_extra (rc_style rc)) |}) summary) (rc_lines rc)).
+Proof. exact start_open_range_eq. Qed.
+Print Assumptions C11_start_writes_style.
